@@ -37,7 +37,7 @@ func typeRegistrySymmetry(p *core.Program, r *core.Report, rule string, pkgFilte
 			continue
 		}
 		// registrations
-		names := map[string]bool{}            // all registered names of the package
+		names := map[string]bool{}               // all registered names of the package
 		byStruct := map[string]map[string]bool{} // struct -> names it is registered under
 		pos := map[string]string{}
 		for _, cs := range p.CallsTo(reg) {
